@@ -94,6 +94,28 @@ def connGo (cfg : ConnCfg) : ConnSt → Nat → Bytes → List String → ConnSt
       | _ => false
     connGo cfg r.1 (i + 1) rest ((r.2.map (evStr i alt inCk tov)).reverse ++ acc)
 
+/-- `chunked` / `chunkedb` ops: the same byte stream (the C harness puts each segment of `chunkedb`
+    into a read buffer of its own) -/
+def chunkedLine (ms mf : String) (segs : List String) : String :=
+  match ms.toNat?, mf.toNat?, segs.mapM ofHex with
+  | some msz, some mfl, some bs =>
+    let cfg : CkCfg := { maxSize := msz * 1024, maxField := mfl }
+    let st := bs.foldl (ckFeed cfg) {}
+    match st.mode with
+    | .err e => "err " ++ toString e
+    | .done => "done out=" ++ toHex st.out ++ " rest=" ++ toString st.after ++ " ka=" ++ (if st.ka then "1" else "0")
+    | m =>
+      let (te, rest) : Nat × Nat := match m with
+        | .hdr acc _ => (0, acc.length)
+        | .data n => (n + 2, 0)
+        | .crlf none => (2, 0)
+        | .crlf (some _) => (2, 1)
+        | .trailer acc _ _ => (0, acc.length)
+        | _ => (0, 0)
+      "more te=" ++ toString te ++ " out=" ++ toHex st.out ++ " rest=" ++ toString rest ++
+        " ka=" ++ (if st.ka then "1" else "0")
+  | _, _, _ => "bad-op"
+
 def h1Line : List String → String
   | ["conn", fl, mf, mk, ki, ms, h] =>
     match fl.toNat?, mf.toNat?, mk.toNat?, ki.toNat?, ms.toNat?, ofHex h with
@@ -107,26 +129,8 @@ def h1Line : List String → String
     match fl.toNat?, mf.toNat?, ofHex h with
     | some f, some m, some b => reqOutStr (parseHead ⟨f⟩ m 80 b)
     | _, _, _ => "bad-op"
-  | "chunkedb" :: ms :: mf :: segs => h1Line ("chunked" :: ms :: mf :: segs)   -- same stream, one read buffer per segment
-  | "chunked" :: ms :: mf :: segs =>
-    match ms.toNat?, mf.toNat?, segs.mapM ofHex with
-    | some msz, some mfl, some bs =>
-      let cfg : CkCfg := { maxSize := msz * 1024, maxField := mfl }
-      let st := bs.foldl (ckFeed cfg) {}
-      match st.mode with
-      | .err e => "err " ++ toString e
-      | .done => "done out=" ++ toHex st.out ++ " rest=" ++ toString st.after ++ " ka=" ++ (if st.ka then "1" else "0")
-      | m =>
-        let (te, rest) : Nat × Nat := match m with
-          | .hdr acc _ => (0, acc.length)
-          | .data n => (n + 2, 0)
-          | .crlf none => (2, 0)
-          | .crlf (some _) => (2, 1)
-          | .trailer acc _ _ => (0, acc.length)
-          | _ => (0, 0)
-        "more te=" ++ toString te ++ " out=" ++ toHex st.out ++ " rest=" ++ toString rest ++
-          " ka=" ++ (if st.ka then "1" else "0")
-    | _, _, _ => "bad-op"
+  | "chunkedb" :: ms :: mf :: segs => chunkedLine ms mf segs
+  | "chunked" :: ms :: mf :: segs => chunkedLine ms mf segs
   | _ => "bad-op"
 
 end Driver
